@@ -373,6 +373,7 @@ pub fn run(args: &Args, r: &mut Report) {
     r.require(&[
         "c13a-program-ran",
         "c13-event-taken-before-following-call",
+        "c13-no-shared-lock-held-across-emission",
         "c13-progress-in-order",
         "c13-all-progress-before-outcome",
         "c13-gate-release-wakes-root",
